@@ -291,7 +291,28 @@ func elemArrSort(t types.Type) string {
 	if _, ok := under(t).(*types.Interface); ok {
 		return SArrR
 	}
+	if isExternalPtr(t) {
+		return SArrR
+	}
 	return ""
+}
+
+// isExternalPtr: a pointer to a named struct type declared outside the repository's module
+// (net.IPNet, …). The code under contract can only pass such pointers around, compare them and
+// hand them to external functions, so a slice of them is an SMT array of identities.
+func isExternalPtr(t types.Type) bool {
+	pt, ok := under(t).(*types.Pointer)
+	if !ok {
+		return false
+	}
+	n, ok := pt.Elem().(*types.Named)
+	if !ok || n.Obj().Pkg() == nil {
+		return false
+	}
+	if _, isStruct := n.Underlying().(*types.Struct); !isStruct {
+		return false
+	}
+	return !strings.HasPrefix(n.Obj().Pkg().Path(), "github.com/facebookincubator/tacquito")
 }
 
 func typeStr(t types.Type) string {
